@@ -1,6 +1,6 @@
 (* C07 — on-disk structures stay mutually consistent (fsck invariant). *)
 From Coq Require Import List NArith.
-From STH Require Import Log Lex Index Store IndexStore GCIndex Refine GInv Full2 Codec Crash Crash2 Statements Statements3 Statements4.
+From STH Require Import Log Lex Index Store IndexStore GCIndex Refine GInv Full2 Codec Crash Crash2 Statements Statements3 Statements4 Budget Budget2 Statements6.
 Import ListNotations.
 Open Scope N_scope.
 
@@ -26,3 +26,12 @@ Theorem C07_fsck_index_clauses_hold_after_crash_recovery :
     fsck_index_ok bits (recover s') /\ forall done, fsck_index_ok bits (recover (flush_cut s' done)).
 Proof. exact recovered_fsck. Qed.
 Print Assumptions C07_fsck_index_clauses_hold_after_crash_recovery.
+
+(* ... and in every state reached by a history with TIME-LIMITED collector cycles anywhere ("after any GC cycle" includes the ones
+   a time limit stops midway). *)
+Theorem C07_fsck_holds_with_time_limited_gc :
+  forall bits imx pmx imm (U : bytes -> Prop) l,
+    bits < 32 -> 0 < imx -> 0 < pmx -> key_universe U -> gops_ok U (init bits imx pmx imm) l ->
+    fsck_ok bits (grun_state (init bits imx pmx imm) l).
+Proof. exact greachable_fsck. Qed.
+Print Assumptions C07_fsck_holds_with_time_limited_gc.
